@@ -89,14 +89,80 @@ def rule_chart_wraps(ctx: Ctx, out: Collector) -> None:
         out.bad('ER-2', cons, ctx.p.loc(unit, unit.node), 'an Exception raised by the entrypoint (not by an event manager) can '
                                                           'escape PipelineChart.run instead of being returned as the error result',
                 path_text(g, res[0]))
+    # (a') user-supplied constructors (artifact store, event managers: the context creates them) run inside a try of run()
+    tries = [n for n in FuncEnv.of(ctx.p, unit).own_nodes() if isinstance(n, ast.Try)]
+    protected = {id(x) for t in tries for st in t.body for x in ast.walk(st)}
+    unprotected = []
+
+    def constructs_user_classes(u, depth: int = 0, seen=None) -> bool:
+        """the unit (transitively: helpers, constructors of in-repo classes) calls get_instance, i.e. a user-supplied class"""
+        seen = seen if seen is not None else set()
+        if u.fid in seen or depth > 5:
+            return False
+        seen.add(u.fid)
+        env = FuncEnv.of(ctx.p, u)
+        for c in env.own_nodes():
+            if not isinstance(c, ast.Call):
+                continue
+            for t in env.resolve_call(c):
+                if t[0] == 'func':
+                    if t[1].name == 'get_instance' or constructs_user_classes(t[1], depth + 1, seen):
+                        return True
+                elif t[0] == 'class' and isinstance(t[1], ClassInfo):
+                    init = ctx.p.lookup_method(t[1], '__init__')
+                    if init is not None and constructs_user_classes(init, depth + 1, seen):
+                        return True
+        return False
+
+    class _Site:
+        def __init__(self, chain):
+            self._chain = chain
+
+        class inst:
+            pass
+    own_env = FuncEnv.of(ctx.p, unit)
+    for c in own_env.own_nodes():
+        if not isinstance(c, ast.Call) or id(c) in protected:
+            continue
+        for t in own_env.resolve_call(c):
+            hit = False
+            if t[0] == 'func' and (t[1].name == 'get_instance' or constructs_user_classes(t[1])):
+                hit = True
+            elif t[0] == 'class' and isinstance(t[1], ClassInfo):
+                init = ctx.p.lookup_method(t[1], '__init__')
+                hit = init is not None and constructs_user_classes(init)
+            if hit:
+                unprotected.append((None, c))
+    cons = cons_base + '::user-supplied constructors run inside the try of run() [collaborators constructed under try]'
+    if not unprotected:
+        out.ok('ER-2', cons, ctx.p.loc(unit, unit.node), 'the context (artifact store, event managers) is created under `except Exception`')
+    else:
+        ev, site = unprotected[0]
+        out.bad('ER-2', cons, ctx.p.loc(unit, site), f'`{unparse(site)[:60]}` constructs user-supplied collaborators (artifact store, event '
+                f'managers) outside every try of run(): a failing constructor - the documented artifact_store=FileSystemArtifactStore '
+                f'needs a directory - makes run() raise instead of returning PipelineResult(error=...)',
+                [])
     # (b) handlers: exactly Exception, returning PipelineResult(value=None, error=<caught>)
-    hs = [h for h in g.events('handler') if h.inst.parent is None]
-    if not hs:
+    # the handlers of run() itself, as written (a handler the fault model cannot reach is still a promise of the code)
+    own = FuncEnv.of(ctx.p, unit)
+    hnodes = [n for n in own.own_nodes() if isinstance(n, ast.ExceptHandler)]
+    hev = {id(h.node): h for h in g.events('handler') if h.inst.parent is None}
+    if not hnodes:
         out.bad('ER-2', cons_base + '::handler', ctx.p.loc(unit, unit.node), 'PipelineChart.run has no exception handler')
+
+    class _H:
+        def __init__(self, node):
+            self.node = node
+
+        def where(self):
+            return hev[id(self.node)].where() if id(self.node) in hev else ctx.p.loc(unit, self.node)
+    hs = [_H(n) for n in hnodes]
+    seen_cons = {}
     for h in hs:
         hn = h.node
         tname = (dotted(hn.type) or '') if hn.type is not None else '<bare>'
-        cons = cons_base + f'::except {tname}'
+        seen_cons[tname] = seen_cons.get(tname, 0) + 1
+        cons = cons_base + f'::except {tname}' + (f' #{seen_cons[tname]}' if seen_cons[tname] > 1 else '')
         if tname != 'Exception':
             out.bad('ER-2', cons, h.where(), f'PipelineChart.run catches {tname} instead of exactly Exception: '
                                              f'{"cancellation is converted into an error result" if tname in ("<bare>", "BaseException") else "other Exceptions escape"}')
@@ -123,7 +189,10 @@ def rule_chart_wraps(ctx: Ctx, out: Collector) -> None:
                 ok = False
                 detail = 'the error result carries a value'
             err = kws.get('error')
-            if not (isinstance(err, tuple) and err[0] == 'caught' and err[2] == hn.name):
+            lexical = any(isinstance(c, ast.Call) and any(k.arg == 'error' and isinstance(k.value, ast.Name) and k.value.id == hn.name
+                                                        for k in c.keywords)
+                          for st in hn.body for c in ast.walk(st))
+            if not (isinstance(err, tuple) and err[0] == 'caught' and err[2] == hn.name) and not lexical:
                 ok = False
                 detail = 'the error result does not carry the caught exception'
         if ok:
@@ -564,3 +633,63 @@ def _try_of(h: Ev):
     from ..guards import parents
     pm = parents(h.inst.unit.node)
     return pm.get(id(h.node))
+
+
+def rule_error_identity(ctx: Ctx, out: Collector) -> None:
+    """ER-9: an exception object handed out by the error scan is a value like any other: whether there *is* an error is decided
+    by identity (`is None` / `is not None`), never by the truth value of the exception (an exception class may define __len__ /
+    __bool__; raised empty it is falsy, the wake-up predicate of run() stays false and the run hangs)."""
+    p = ctx.p
+    firsts = {u.fid for u in _first_error_functions(ctx)}
+    if not firsts:
+        raise AnalysisError('no function handing out the exception of a failed task found (ER-9 anchor vanished)')
+    from ..guards import parents
+    n = 0
+    problems = []
+    for unit in _run_units(ctx):
+        env = FuncEnv.of(p, unit)
+        par = parents(unit.node)
+        calls = [c for c in env.own_nodes() if isinstance(c, ast.Call) and any(t[0] == 'func' and t[1].fid in firsts for t in env.resolve_call(c))]
+        if unit.fid in firsts:
+            continue
+
+        def truth_use(node: ast.AST) -> Optional[ast.AST]:
+            """the node is used for its truth value: -> the construct that does so"""
+            cur = node
+            while id(cur) in par:
+                up = par[id(cur)]
+                if isinstance(up, ast.Call) and isinstance(up.func, ast.Name) and up.func.id == 'bool' and cur in up.args:
+                    return up
+                if isinstance(up, (ast.If, ast.While, ast.IfExp, ast.Assert)) and up.test is cur:
+                    return up
+                if isinstance(up, ast.UnaryOp) and isinstance(up.op, ast.Not):
+                    return up
+                if isinstance(up, ast.BoolOp):
+                    cur = up
+                    continue
+                return None
+            return None
+        for c in calls:
+            n += 1
+            bad = truth_use(c)
+            if bad is not None:
+                problems.append((unit, bad))
+            up = par.get(id(c))
+            if isinstance(up, ast.Assign) and len(up.targets) == 1 and isinstance(up.targets[0], ast.Name):
+                name = up.targets[0].id
+                for use in env.own_nodes():
+                    if isinstance(use, ast.Name) and use.id == name and isinstance(use.ctx, ast.Load):
+                        bad = truth_use(use)
+                        if bad is not None:
+                            problems.append((unit, bad))
+    if n == 0:
+        raise AnalysisError('the error scan is never consulted on the run path (ER-9 anchor vanished)')
+    mgr = ctx.manager_class()
+    cons = f'{mgr.module.name}::{mgr.name}::the exception found by the error scan is tested by identity, not by truth value [error-identity]'
+    if not problems:
+        out.ok('ER-9', cons, p.loc(mgr.module, mgr.node), f'{n} uses of the error scan')
+    else:
+        unit, bad = problems[0]
+        out.bad('ER-9', cons, p.loc(unit, bad), f'`{unparse(bad)[:70]}` takes the truth value of the exception object: a node failing with '
+                f'a falsy exception (a class with __len__ / __bool__, raised empty) counts as "no error" - run() is never woken / the '
+                f'failure is skipped and the output value (absent) is returned')
